@@ -307,13 +307,13 @@ func runUnencodable(c *vlib.Ctx, caseID string, i int, r *vlib.Rand) {
 	total := r.Range(8, 40)
 	defLic := genLicense(r)
 	idBase := (r.I64() &^ 0xFFFFF) & 0x7FFFFFFFFFFFFFFF
-	pr, err := newPeer(nil, 0)
+	col, err := getCollector() // the shard's long-lived listener: one connection per case
 	if err != nil {
 		c.Inconclusive(caseID, "cannot listen on loopback: "+err.Error())
 		c.Eval(-1)
 		return
 	}
-	copts := []oneway.OneWayTcpClientOption{oneway.WithServers([]string{pr.addr}), oneway.WithLicense(defLic), oneway.WithPcode(r.I64()), oneway.WithOid(r.I32())}
+	copts := []oneway.OneWayTcpClientOption{oneway.WithServers([]string{col.addr}), oneway.WithLicense(defLic), oneway.WithPcode(r.I64()), oneway.WithOid(r.I32())}
 	if queued {
 		copts = append(copts, oneway.WithUseQueue())
 	}
@@ -371,22 +371,27 @@ func runUnencodable(c *vlib.Ctx, caseID string, i int, r *vlib.Rand) {
 			errs++
 		}
 	}
+	local := clientLocalAddr(cl)
 	cl.VerifCancel()
 	cl.VerifCloseLocked()
-	conns, ok := pr.finish()
-	if !ok {
-		pr.abandon()
+	data, reason := collectOne(col, local, "")
+	if reason != "" {
+		resetCollector()
+		c.Inconclusive(caseID, reason)
+		c.Eval(-1)
+		return
 	}
-	st := checkStreams(c, conns, newSentIndex(all), streamOpts{
+	st := checkStreams(c, []*peerConn{{idx: 0, data: data}}, newSentIndex(all), streamOpts{
 		label:       fmt.Sprintf("%s queue=%v", caseID, queued),
 		sfx:         func(int) string { return "/after-unencodable" },
-		tailAllowed: func(pc *peerConn) bool { return errs > 0 || !ok },
+		tailAllowed: func(pc *peerConn) bool { return errs > 0 },
 		exactlyOnce: true,
-		wantAll:     errs == 0 && ok,
+		wantAll:     errs == 0,
 		extra:       map[string]interface{}{"handed_over": story, "default_license": vlib.Hex([]byte(defLic))},
 	})
-	if st.failures == 0 && (!ok || errs > 0) {
-		c.Inconclusive(caseID, fmt.Sprintf("watchdog fired (%v) or a good pack failed on a healthy loopback connection (%d)", !ok, errs))
+	if st.failures == 0 && errs > 0 {
+		resetCollector()
+		c.Inconclusive(caseID, fmt.Sprintf("a good pack failed on a healthy loopback connection (%d)", errs))
 		c.Eval(-1)
 		return
 	}
